@@ -102,7 +102,7 @@ func TestVerif_C05(t *testing.T) {
 	defer res.finish(t)
 	res.assume("allocator occupancy is read in-package at quiescent points under the code's own locks (UP4 maps without a lock: no handler is running); 'returned' = occupancy is back to what it was before the session")
 	res.assume("timeouts are set to tens of milliseconds to reach the timeout endings; verdicts use occupancy and table contents, not time")
-	reps := vEnv.pick(2, 16)
+	reps := vEnv.pick(2, 120)
 	idx := 0
 	for rep := 0; rep < reps; rep++ {
 		for _, up4 := range []bool{false, true} {
